@@ -7,6 +7,18 @@ ROOT = os.path.dirname(os.path.dirname(os.path.abspath(__file__)))
 
 # id -> (technique, level text, level note, design ref)
 CHECKS = {
+ "C02": ("proptest + exhaustive boundary windows of single-access probes against an exact address oracle, fork-isolated with PROT_NONE guard pages and canary arenas",
+         "Each probe is one access instruction whose effective address sits at a generated distance (-9..+9) from a boundary of packet, metadata buffer, registered range or stack, or is null / top-of-address-space / wrapping / far; the child process knows the real addresses and decides allowed <=> inside exactly one region, then checks Ok + exact value / stored bytes, or Err + no byte changed. Thorough enumerates every (boundary, delta, kind, width) for fixed layouts. Exploration (exhaustive within the windows in the thorough tier).",
+         "Stack boundaries are probed r10-relative; registered ranges are kept from touching other regions.",
+         "DESIGN.md section 3, C02"),
+ "C07": ("proptest over generated call graphs against the reference model's C07 semantics, on the interpreter (value and error clauses) and the JIT (value clauses)",
+         "Programs with 1-6 functions, forward/backward/long displacements, recursion bounded by a counter (depth 0-10), per-function callee-saved values, stack slots, r10 spills, helper calls with small ids, with and without a table-driven stack-usage calculator; every register/frame effect is folded into r0 and compared with the model. Exploration.",
+         "Error clauses only on the interpreter (the JIT has no run-time error channel).",
+         "DESIGN.md section 3, C07"),
+ "C11": ("proptest + exhaustive boundary windows of single-access probes compiled with Cranelift, one forked child per probe, SIGILL-handler oracle",
+         "Same probe generator as C02 on the regions Cranelift knows; in bounds => exact value / stored bytes; out of bounds => the child must die in the trap (SIGILL) with every byte of the arenas unchanged (checked inside the signal handler); a normal return, SIGSEGV or changed byte is a violation. Exploration (exhaustive within the windows in the thorough tier).",
+         "A trap surfaces as SIGILL; guard pages turn performed out-of-region reads into faults.",
+         "DESIGN.md section 3, C11"),
  "C05": ("proptest crash oracle over verifier-accepted near-valid byte strings and mutated structured programs, interpreted in a forked child under catch_unwind with an instruction budget",
          "Acceptance by the real verifier is the premise; every accepted program runs on a random VM kind / packet / metadata / helper set; Ok, Err and budget exhaustion are fine, a panic, abort or fatal signal is a violation (signature = panic location). Thorough adds 30x the cases. Exploration.",
          "Budget exhaustion stands for 'keeps running'; the child process isolates crashes.",
